@@ -128,6 +128,8 @@ def cases(tier):
     for kind in ('name', 'stem', 'suffixes', 'suffix'):
         for how in ('single', 'selection'):
             yield ('Names', kind, how)
+    for i in range(len(PBYTES_INSTR)):
+        yield ('Pbytes', i)
     nt = len(trees(tier))
     for ti in range(nt):
         for oi in range(len(OPTIONS)):
@@ -144,6 +146,8 @@ def run(case) -> Result:
         return _ptop(res, case)
     if case[0] == 'Names':
         return _names(res, case)
+    if case[0] == 'Pbytes':
+        return _pbytes(res, case)
     return _match(res, case)
 
 
@@ -258,6 +262,54 @@ PTOP = [
     ({'dl': '../outside-dir'}, "dir d += {\n dir dl += {\n  file x\n }\n}", 'error'),
     ({'dl': '../outside-dir'}, "dir d += {\n file dl/x\n}", 'error'),
 ]
+
+
+# the files of a copied directory are the SAME files: byte for byte, whatever they contain (not text, CR LF, lone CR, empty), at the top and below
+PBYTES = {'bin.dat': b'\xff\xfe\x00bin', 'crlf.txt': b'a\r\nb\r\n', 'cr.txt': b'a\rb', 'empty': b'', 'utf8.txt': 'e\u0301 \u00e9\n'.encode('utf-8'), 'nul': b'\x00\x00',
+          'sub/bin2.dat': b'\x80\x81', 'sub/crlf2.txt': b'\r\n\r\n', 'sub/deep/x': b'\xfe'}
+PBYTES_INSTR = ['dir d = dir-contents-of -rel-home bsrc', 'dir d = {\n dir inner = dir-contents-of -rel-home bsrc\n}', "dir d = {\n file pre = 'x'\n}\ndir d += dir-contents-of -rel-home bsrc",
+                'dir d = dir-contents-of -rel-home bsrc/sub', 'copy bsrc d']
+
+
+def _pbytes(res, case):
+    instr = PBYTES_INSTR[case[1]]
+    w = world.get()
+    w.reset()
+    seam = procseam.SEAM
+    seam.reset()
+    for rel, data in PBYTES.items():
+        p = w.write('bsrc/' + rel, '')
+        with open(p, 'wb') as f:
+            f.write(data)
+    text = '[setup]\n' + instr + '\n[act]\n'
+    o = cli.run_case(text, args=['--keep'])
+    ident = o.err.split('\n')[0]
+    sds = o.out.strip()
+    res.n += 1
+    res.nontrivial += 1
+    errs = []
+    if ident != 'PASS' or not os.path.isdir(sds):
+        errs.append('`%s` (the source holds files that are not text, CR LF files, empty files): expected PASS, got %s / %s' % (
+            instr.replace('\n', ' '), ident, ' / '.join(cli.stderr_lines(o.err)[-3:])[:300]))
+    else:
+        base = os.path.join(sds, 'act', 'd')
+        if 'inner' in instr:
+            base = os.path.join(base, 'inner')
+        want = dict(PBYTES)
+        if instr.endswith('bsrc/sub'):
+            want = {k[4:]: v for k, v in PBYTES.items() if k.startswith('sub/')}
+        for rel, data in sorted(want.items()):
+            try:
+                with open(os.path.join(base, rel), 'rb') as f:
+                    got = f.read()
+            except OSError as ex:
+                got = 'ERR %s' % ex
+            if got != data:
+                errs.append('copied file %s holds %r, the source file holds %r' % (rel, got, data))
+    res.outcomes[('Pbytes', ident)] += 1
+    if errs:
+        res.violation(case, errs, {'file': text})
+    return res
 
 
 # file names around the table "File name parts" of `help syntax file-matcher` (every row of it, plus dot-files and names ending in a dot)
